@@ -111,6 +111,11 @@ def regname(m):
     return None if r is None or re.fullmatch(r"register\d+", str(r)) else r
 
 
+def regname_str(r):
+    import re
+    return None if r is None or re.fullmatch(r"register\d+", str(r)) else r
+
+
 def trailing(queue):
     out = []
     for g in reversed(list(queue)):
@@ -119,6 +124,20 @@ def trailing(queue):
         else:
             break
     return out[::-1]
+
+
+def final_measurements(queue):
+    """the measurements the routers treat as final: every non-collapsing measurement (no
+    later gate touches its qubits) wherever it sits, then the trailing measurements."""
+    queue = list(queue)
+    tr = trailing(queue)
+    body = queue[: len(queue) - len(tr)]
+    return [g for g in body if isinstance(g, gates.M) and not g.collapse] + tr
+
+
+def body_gates(queue):
+    fin = {id(g) for g in final_measurements(queue)}
+    return [g for g in queue if id(g) not in fin]
 
 
 def check_routing(circuit, connectivity, routed, layout, exact, before=None):
@@ -154,12 +173,22 @@ def check_routing(circuit, connectivity, routed, layout, exact, before=None):
     same = np.array_equal(UR, want) if exact else np.allclose(UR, want, atol=1e-9, rtol=0)
     if not same:
         bad.append(("operator", "routed operator differs from P.U with P from the reported layout"))
-    # (d) trailing measurements: same number, registers, order, moved through the layout
-    tin, tout = trailing(circuit.queue), trailing(routed.queue)
+    # (d) every final (non-collapsing) measurement of the input comes after all gates of the
+    # output, in the input's order, on l2p[q], same register name and qubit order (collapsing
+    # measurements act in place: they are covered by the operator identity)
+    tin = [m for m in final_measurements(circuit.queue) if not m.collapse]
+    tout = [m for m in trailing(routed.queue) if not m.collapse]
     win = [(regname(m), tuple(f[q] for q in m.qubits)) for m in tin]
-    wout = [(regname(m), tuple(m.qubits)) for m in tout[len(tout) - len(tin):]] if len(tout) >= len(tin) else None
+    wout = [(regname(m), tuple(m.qubits)) for m in tout]
     if wout != win:
-        bad.append(("measurements", f"trailing measurements {[(m.register_name, m.qubits) for m in tout]}, expected {win}"))
+        bad.append(("measurements", f"final measurements at the end of the output {[(m.register_name, m.qubits) for m in tout]}, expected {win}"))
+    # registers never disappear from the results of the routed circuit
+    rin, rout = circuit.measurement_tuples, routed.measurement_tuples
+    lost = [r for r, qs in rin.items() if regname_str(r) is not None
+            and (r not in rout or tuple(rout[r]) != tuple(f[q] for q in qs))]
+    if lost or len(rout) < len(rin):
+        bad.append(("registers-dropped", f"registers {lost or sorted(rin)} of the input are missing or on other qubits in "
+                                          f"routed.measurement_tuples {dict(rout)} (input {dict(rin)}, layout {f})"))
     nin = sum(len(g.qubits) for g in circuit.queue if isinstance(g, gates.M))
     nout = sum(len(g.qubits) for g in routed.queue if isinstance(g, gates.M))
     if nin != nout:
@@ -173,10 +202,8 @@ def check_routing(circuit, connectivity, routed, layout, exact, before=None):
 def split_clash_class(queue, detach):
     """input class of the known defect of `_split_multi_qubit_measurements`: a multi-qubit
     measurement together with another measurement among the gates that reach the block
-    decomposition (for routers: after the trailing measurements are detached)."""
-    body = list(queue)
-    if detach:
-        body = body[: len(body) - len(trailing(body))]
+    decomposition (for routers: after the final measurements are detached)."""
+    body = body_gates(queue) if detach else list(queue)
     ms = [g for g in body if isinstance(g, gates.M)]
     return len(ms) >= 2 and any(len(g.qubits) > 1 for g in ms)
 
@@ -396,6 +423,33 @@ def label_graph(rng, G, style):
     return wire_names, edges
 
 
+def deferred_cases():
+    """input class of a repaired defect: a measurement that is final on its qubit but not
+    trailing in the queue, followed by gates that need a SWAP on that wire (routed in place
+    it became a collapsing measurement and its register vanished from the results)."""
+    out = []
+    for router in ("ShortestPaths", "Sabre"):
+        for n in (4, 5):
+            for seed in (1, 2, 3):
+                for mq, tail in (("1", []), ("1", [f"gates.M(0,{n-1}, register_name='b')"]), ("2,1", ["gates.M(0)"]),
+                                 ("1", [f"gates.X({n-1})"])):
+                    opts = {"seed": seed} if router == "ShortestPaths" else {"seed": seed, "swap_threshold": [0.1, 1.5, 1.5][seed - 1]}
+                    out.append({"router": router, "n": n, "nodes": list(range(n)), "wire_names": list(range(n)),
+                                "edges": list(nx.path_graph(n).edges), "opts": opts, "exact": True,
+                                "gates": ["gates.X(1)", f"gates.M({mq}, register_name='a')", "gates.X(0)",
+                                          f"gates.CNOT(0,{n-1})", f"gates.CNOT({n-1},0)"] + tail})
+    for mid, names in ((2, [0, 1, 2, 3, 4]), (0, ["c", "x", "y", "z", "w"])):
+        leaves = [i for i in range(5) if i != mid]
+        edges = [(names[mid], names[i]) for i in leaves]
+        for mq, tail in ((f"{mid}", []), (f"{mid}", [f"gates.M({leaves[0]},{leaves[1]}, register_name='b')"]),
+                         (f"{leaves[2]},{mid}", [f"gates.X({leaves[3]})"])):
+            out.append({"router": "StarConnectivityRouter", "n": 5, "nodes": list(names), "wire_names": list(names),
+                        "edges": edges, "opts": {}, "exact": True,
+                        "gates": [f"gates.X({mid})", f"gates.M({mq}, register_name='a')",
+                                  f"gates.CZ({leaves[0]},{leaves[1]})", f"gates.CNOT({leaves[1]},{leaves[3]})"] + tail})
+    return out
+
+
 def sabre_opts(rng):
     return {
         "lookahead": rng.choice([0, 1, 2, 2, 3]),
@@ -481,11 +535,15 @@ class Recorder:
 class Tagger:
     """gate -> (tag, meas, qubits); tag 0 = SWAP, 1 = plain measurement."""
 
-    def __init__(self):
-        self.tags = {("SWAP", (), -1): 0, ("M",): 1}
+    def __init__(self, collapse_tags=False):
+        # star model: tag 1 = final (non-collapsing) measurement, 2 = collapsing measurement
+        self.collapse_tags = collapse_tags
+        self.tags = {("SWAP", (), -1): 0, ("M",): 1, ("M", True): 2}
 
     def __call__(self, g):
         s = SPEC["sig"](g)
+        if self.collapse_tags and isinstance(g, gates.M) and g.collapse:
+            s = ("M", True)
         t = self.tags.setdefault(s, len(self.tags))
         return (t, 1 if isinstance(g, gates.M) else 0, tuple(int(q) for q in g.qubits))
 
@@ -499,11 +557,12 @@ def gstr(g):
 
 
 def split_input(queue, tag):
-    """the queue as the block decomposition sees it: trailing measurements kept whole,
-    other multi-qubit measurements split into plain one-qubit measurements (only if there
-    is one among the non-trailing gates)."""
-    tr = SPEC["trailing"](queue)
-    body = list(queue)[: len(queue) - len(tr)]
+    """(body, final measurements) as the routers see the queue: the final measurements
+    (non-collapsing ones anywhere + the trailing ones, original order) are detached and kept
+    whole; in the remaining body multi-qubit measurements are split into plain one-qubit
+    measurements (only if there is one)."""
+    fin = SPEC["final_measurements"](queue)
+    body = SPEC["body_gates"](queue)
     multi = any(isinstance(g, gates.M) and len(g.qubits) > 1 for g in body)
     out = []
     for g in body:
@@ -511,7 +570,7 @@ def split_input(queue, tag):
             out += [(1, 1, (int(q),)) for q in g.qubits]
         else:
             out.append(tag(g))
-    return out, [tag(g) for g in tr]
+    return out, [tag(g) for g in fin]
 
 
 def projections_equal(a, b):
@@ -572,7 +631,8 @@ def fail_case(ctx, case, calls, bad, broken):
         b2, cur = bad, case
     for kind in sorted(kinds):
         det = next((d for k, d in b2 if k == kind), "")
-        ctx.fail(f"{case['router']}:{kind}", f"{case['router']} on graph {cur['edges']} wires {cur['wire_names']}: {det}",
+        ctx.fail(f"registers-dropped:{case['router']}" if kind == "registers-dropped" else f"{case['router']}:{kind}",
+                 f"{case['router']} on graph {cur['edges']} wires {cur['wire_names']}: {det}",
                  replay_code(cur, calls, {kind}), expected="no violation of C09", observed=[list(b) for b in b2][:4],
                  broken=broken)
 
@@ -584,7 +644,7 @@ def route_and_record(ctx, st, case, record=True):
     c = SPEC["build_circuit"](case["n"], case["wire_names"], case["gates"], case.get("dm", False))
     before = SPEC["snapshot"](c)
     router = SPEC["make_router"](case["router"], G.copy(), case.get("opts", {}))
-    tag = Tagger()
+    tag = Tagger(collapse_tags=case["router"] == "StarConnectivityRouter")
     n = case["n"]
     try:
         if record and case["router"] != "StarConnectivityRouter":
@@ -763,6 +823,13 @@ def router_suites(ctx, st):
             if bad:
                 failing.append((case, 1, bad))
 
+    for case in deferred_cases():
+        bad = route_and_record(ctx, st, case)
+        ctx.case((case["router"], "deferred", tuple(case["gates"]), repr(case["opts"])))
+        ctx.stat("final_not_trailing_measurement_then_swap")
+        if bad:
+            failing.append((case, 1, bad))
+
     styles = ["id", "perm", "str"]
     reps = 20 if th else 5
     # all connected graphs on <= 5 nodes
@@ -811,10 +878,16 @@ def samples_suite(ctx):
     rng = ctx.rng
     bad = 0
     atlas = [g for g in atlas_graphs(5) if g.number_of_nodes() >= 3]
-    for r in range(60 if ctx.thorough else 18):
-        router = ["ShortestPaths", "Sabre", "StarConnectivityRouter"][r % 3]
-        G = nx.star_graph(4) if router == "StarConnectivityRouter" else rng.choice(atlas)
-        case = make_case(rng, G, router, rng.choice(["id", "perm", "str"]), rng.randint(3, 14), "det", "trailing")
+    directed = deferred_cases()
+    directed = directed if ctx.thorough else directed[::3]
+    for r in range(len(directed) + (60 if ctx.thorough else 18)):
+        if r < len(directed):
+            case = directed[r]
+            router = case["router"]
+        else:
+            router = ["ShortestPaths", "Sabre", "StarConnectivityRouter"][r % 3]
+            G = nx.star_graph(4) if router == "StarConnectivityRouter" else rng.choice(atlas)
+            case = make_case(rng, G, router, rng.choice(["id", "perm", "str"]), rng.randint(3, 14), "det", "trailing")
         Gx = SPEC["build_graph"](case["edges"], case["nodes"])
         c = SPEC["build_circuit"](case["n"], case["wire_names"], case["gates"])
         try:
